@@ -12,7 +12,8 @@ def NoLocks (cfg : Cfg) (fs : FS) : Prop :=
     ∀ c ∈ cfg.chrs, fs.has (.collected c) = false ∧ fs.has (.processed c) = false
 
 theorem guarded_lock_cases {cfg : Cfg} {l d : Path} (h : d ∈ guarded cfg l) :
-    l = .lock ∨ l = .rgLock ∨ (∃ c ∈ cfg.chrs, l = .collected c) ∨ (∃ c ∈ cfg.chrs, l = .processed c) := by
+    l = .lock ∨ l = .rgLock ∨ (∃ c ∈ cfg.chrs, l = .collected c) ∨ (∃ c ∈ cfg.chrs, l = .processed c) ∨
+      (l = .refFai ∧ d = .refFaiData ∧ idxTrusted cfg = true) := by
   cases l <;> simp only [guarded] at h
   all_goals try (simp at h; done)
   · exact Or.inr (Or.inl rfl)
@@ -21,26 +22,33 @@ theorem guarded_lock_cases {cfg : Cfg} {l d : Path} (h : d ∈ guarded cfg l) :
     · simp at h
   · exact Or.inl rfl
   · split at h
-    · rename_i hc; exact Or.inr (Or.inr (Or.inr ⟨_, hc, rfl⟩))
+    · rename_i hc; exact Or.inr (Or.inr (Or.inr (Or.inl ⟨_, hc, rfl⟩)))
+    · simp at h
+  · split at h
+    · rename_i ht; simp only [List.mem_cons, List.not_mem_nil, or_false] at h
+      exact Or.inr (Or.inr (Or.inr (Or.inr ⟨rfl, h, ht⟩)))
     · simp at h
 
-theorem noLocks_guard {cfg : Cfg} {fs : FS} (h : NoLocks cfg fs) {l d : Path} (hm : d ∈ guarded cfg l) : fs.has l = false := by
-  rcases guarded_lock_cases hm with rfl | rfl | ⟨c, hc, rfl⟩ | ⟨c, hc, rfl⟩
+theorem noLocks_guard {cfg : Cfg} {fs : FS} (h : NoLocks cfg fs) {l d : Path} (hm : d ∈ guarded cfg l)
+    (hd : d ≠ .refFaiData) : fs.has l = false := by
+  rcases guarded_lock_cases hm with rfl | rfl | ⟨c, hc, rfl⟩ | ⟨c, hc, rfl⟩ | ⟨_, e, _⟩
   · exact h.1
   · exact h.2.1
   · exact (h.2.2 c hc).1
   · exact (h.2.2 c hc).2
+  · exact absurd e hd
 
 /-- removing any existing files keeps the invariant once no lock is left -/
 theorem removeAll_stage {cfg : Cfg} {fs : FS} (h : J cfg fs) (hn : NoLocks cfg fs) (L : List Path) (nd : L.Nodup)
-    (hp : ∀ p ∈ L, p ≠ .params) (hhas : ∀ p ∈ L, fs.has p = true) :
+    (hp : ∀ p ∈ L, p ≠ .params ∧ p ≠ .refFaiData) (hhas : ∀ p ∈ L, fs.has p = true) :
     Good cfg fs (runActs (rmAll L) fs) ∧
       (∀ p, (runActs (rmAll L) fs).fs p = if p ∈ L then none else fs p) := by
   have hJ : AllP (J cfg) fs (L.map Ev.remove) := by
     apply allJ_body h
-    · intro e he; simp only [List.mem_map] at he; obtain ⟨p, hp', rfl⟩ := he; exact hp p hp'
+    · intro e he; simp only [List.mem_map] at he; obtain ⟨p, hp', rfl⟩ := he; exact (hp p hp').1
     · intro e he _; simp only [List.mem_map] at he; obtain ⟨p, _, rfl⟩ := he; rfl
-    · intro e he _ l hm; exact noLocks_guard hn hm
+    · intro e he _ l hm; simp only [List.mem_map] at he; obtain ⟨p, hp', rfl⟩ := he
+      exact noLocks_guard hn hm (hp p hp').2
   obtain ⟨hg, hfs⟩ := good_of_checks (checks_rmAll nd hhas) (by rw [eventsOf_rmAll]; exact hJ)
   rw [eventsOf_rmAll] at hfs
   refine ⟨hg, fun p => ?_⟩
@@ -49,13 +57,14 @@ theorem removeAll_stage {cfg : Cfg} {fs : FS} (h : J cfg fs) (hn : NoLocks cfg f
   · rename_i hm; exact applyAll_remove_not_mem hm
 
 theorem glob_stage {cfg : Cfg} {fs : FS} (h : J cfg fs) (hn : NoLocks cfg fs) (sel : Path → Bool) (hsel : sel .params = false)
-    (ord : List Path) (nd : ord.Nodup) :
+    (hsel2 : sel .refFaiData = false) (ord : List Path) (nd : ord.Nodup) :
     Good cfg fs (runActs (globStage sel ord fs) fs) ∧ NoLocks cfg (runActs (globStage sel ord fs) fs).fs ∧
       (∀ p, sel p = false → (runActs (globStage sel ord fs) fs).fs p = fs p) := by
   unfold globStage
   obtain ⟨hg, hv⟩ := removeAll_stage h hn (ord.filter (fun p => sel p && fs.has p))
     (List.Nodup.sublist List.filter_sublist nd)
-    (by intro p hp e; simp only [List.mem_filter, Bool.and_eq_true] at hp; rw [e, hsel] at hp; simp at hp)
+    (by intro p hp; simp only [List.mem_filter, Bool.and_eq_true] at hp
+        exact ⟨fun e => by rw [e, hsel] at hp; simp at hp, fun e => by rw [e, hsel2] at hp; simp at hp⟩)
     (by intro p hp; simp only [List.mem_filter, Bool.and_eq_true] at hp; exact hp.2.2)
   have hmono : ∀ p, (runActs (rmAll (ord.filter (fun p => sel p && fs.has p))) fs).fs.has p = true → fs.has p = true := by
     intro p hq
@@ -162,38 +171,151 @@ theorem stages_eq (cfg : Cfg) (ord : List Path) (rs sk : Bool) :
     stages fixed cfg ord rs sk = paramsStage rs :: refStage fixed cfg rs :: restStages cfg ord rs (sk || cfg.fromSaves) := by
   simp [stages, restStages, fixed, unalOK]
 
-/-- the events of the reference stage of the repaired code: every run (resumed or not) unpacks the reference again -/
-def refEvents (cfg : Cfg) : List Ev :=
+/-- the paths of the reference stage: the unpacked copy, the index (file and content), the temporary index -/
+def isRefAux : Path → Bool
+  | .refFa | .refFai | .refFaiData | .refFaiTmp => true
+  | _ => false
+
+/-- the events of the copy part of the reference stage (repaired code): every run unpacks the reference again -/
+def copyEvents (cfg : Cfg) : List Ev :=
   if cfg.gzRef then [.create .refFa, .commit .refFa .stale, .commit .refFa .good] else []
 
-/-- the reference stage (repaired code): whatever file carries the name of the unpacked copy — nothing, the complete copy
-    of this run, a partial copy left by a kill, the copy of another reference left by an earlier run — is rewritten
-    before it is read; the stage completes, keeps the invariant at every prefix and touches no other file -/
-theorem ref_stage {cfg : Cfg} (rs : Bool) {fs : FS} (h : J cfg fs) :
-    Good cfg fs (runActs (refStage fixed cfg rs fs) fs) ∧
-      (runActs (refStage fixed cfg rs fs) fs).evs = refEvents cfg ∧
-      (∀ p, p ≠ .refFa → (runActs (refStage fixed cfg rs fs) fs).fs p = fs p) ∧
-      (cfg.gzRef = true → (runActs (refStage fixed cfg rs fs) fs).fs.good .refFa = true) := by
-  unfold refStage refEvents
+/-- the events of load_indexed_reference (repaired code) for an index inside the output folder: nothing when an index that
+    is trusted exists; otherwise the index is built under the temporary name and renamed -/
+def indexEvents (cfg : Cfg) (fs : FS) : List Ev :=
+  if !cfg.idx then []
+  else if idxTrusted cfg && fs.has .refFai then []
+  else [.create .refFaiTmp, .commit .refFaiTmp .good, .remove .refFaiTmp, .commit .refFaiData .good, .commit .refFai .good]
+
+def refEvents (cfg : Cfg) (fs : FS) : List Ev := copyEvents cfg ++ indexEvents cfg fs
+
+theorem refFaiTmp_not_guarded {cfg : Cfg} {l : Path} : Path.refFaiTmp ∉ guarded cfg l := by
+  intro hm; have := mem_guarded_locksOf hm; simp [locksOf] at this
+
+theorem copy_part {cfg : Cfg} (rs : Bool) {fs : FS} (h : J cfg fs) :
+    ChecksOK (refCopyActs fixed cfg rs fs) fs ∧ eventsOf (refCopyActs fixed cfg rs fs) = copyEvents cfg ∧
+      AllP (J cfg) fs (copyEvents cfg) ∧
+      (∀ p, p ≠ .refFa → applyAll fs (copyEvents cfg) p = fs p) ∧
+      (cfg.gzRef = true → (applyAll fs (copyEvents cfg)).good .refFa = true) := by
+  unfold refCopyActs copyEvents
   cases hg : cfg.gzRef with
   | false =>
     simp only [Bool.not_false, if_true, Bool.false_eq_true, if_false]
-    exact ⟨good_nil h, rfl, fun _ _ => rfl, fun e => absurd e (by simp)⟩
+    exact ⟨trivial, rfl, h, fun _ _ => rfl, fun e => absurd e (by simp)⟩
   | true =>
     simp only [fixed, Bool.not_true, Bool.false_and, Bool.false_eq_true, if_false, if_true]
-    have hck : ChecksOK (evs [.create .refFa, .commit .refFa .stale, .commit .refFa .good] ++ [Act.load .refFa]) fs := by
-      simp [evs, ChecksOK, apply, Ev.path, Ev.val, good_set]
-    have hev : eventsOf (evs [.create .refFa, .commit .refFa .stale, .commit .refFa .good] ++ [Act.load .refFa]) =
-        [.create .refFa, .commit .refFa .stale, .commit .refFa .good] := by simp [evs, eventsOf]
-    have hJ : AllP (J cfg) fs [.create .refFa, .commit .refFa .stale, .commit .refFa .good] :=
-      allJ_of_bodyOK (L := []) h (by simp [bodyOK, isLock, locksOf, Ev.path]) (by simp)
-    obtain ⟨g, hfs⟩ := good_of_checks hck (by rw [hev]; exact hJ)
-    rw [hev] at hfs
-    have hevs : (runActs (evs [.create .refFa, .commit .refFa .stale, .commit .refFa .good] ++ [Act.load .refFa]) fs).evs =
-        [.create .refFa, .commit .refFa .stale, .commit .refFa .good] := by rw [(runActs_of_checks hck).2, hev]
-    refine ⟨g, hevs, fun p hp => ?_, fun _ => ?_⟩
-    · rw [hfs]; simp [applyAll, apply, Ev.path, FS.set, hp]
-    · rw [hfs]; simp [applyAll, apply, Ev.path, Ev.val, good_set]
+    refine ⟨by simp [evs, ChecksOK, apply, Ev.path, Ev.val, good_set], by simp [evs, eventsOf], ?_, fun p hp => ?_, fun _ => ?_⟩
+    · exact allJ_of_bodyOK (L := []) h (by simp [bodyOK, isLock, locksOf, Ev.path]) (by simp)
+    · simp [applyAll, apply, Ev.path, FS.set, hp]
+    · simp [applyAll, apply, Ev.path, Ev.val, good_set]
+
+theorem index_part {cfg : Cfg} {fs : FS} (h : J cfg fs) :
+    ChecksOK (refIndexActs fixed cfg fs) fs ∧ eventsOf (refIndexActs fixed cfg fs) = indexEvents cfg fs ∧
+      AllP (J cfg) fs (indexEvents cfg fs) ∧
+      (∀ p, isRefAux p = false → applyAll fs (indexEvents cfg fs) p = fs p) ∧
+      applyAll fs (indexEvents cfg fs) .refFa = fs .refFa ∧
+      (cfg.idx = true → (applyAll fs (indexEvents cfg fs)).good .refFaiData = true) := by
+  unfold refIndexActs indexEvents
+  cases hi : cfg.idx with
+  | false =>
+    simp only [Bool.not_false, if_true]
+    exact ⟨trivial, rfl, h, fun _ _ => rfl, rfl, fun e => absurd e (by simp)⟩
+  | true =>
+    simp only [Bool.not_true, Bool.false_eq_true, if_false]
+    by_cases ht : (idxTrusted cfg && fs.has .refFai) = true
+    · simp only [ht, if_true]
+      simp only [Bool.and_eq_true] at ht
+      have hd : fs.good .refFaiData = true := h.2 .refFai ht.2 _ (by simp [guarded, ht.1])
+      exact ⟨⟨ht.2, trivial⟩, rfl, h, fun _ _ => rfl, rfl, fun _ => hd⟩
+    · simp only [ht, fixed, if_true, Bool.false_eq_true, if_false]
+      have h4 : AllP (J cfg) fs [.create .refFaiTmp, .commit .refFaiTmp .good, .remove .refFaiTmp, .commit .refFaiData .good] := by
+        apply allJ_body h
+        · intro e he; simp only [List.mem_cons, List.not_mem_nil, or_false] at he
+          rcases he with rfl | rfl | rfl | rfl <;> simp [Ev.path]
+        · intro e he hl; simp only [List.mem_cons, List.not_mem_nil, or_false] at he
+          rcases he with rfl | rfl | rfl | rfl <;> simp [Ev.path, isLock] at hl
+        · intro e he hv l hm; simp only [List.mem_cons, List.not_mem_nil, or_false] at he
+          rcases he with rfl | rfl | rfl | rfl
+          · exact absurd hm refFaiTmp_not_guarded
+          · simp [Ev.val] at hv
+          · exact absurd hm refFaiTmp_not_guarded
+          · simp [Ev.val] at hv
+      have h5 : J cfg (apply (applyAll fs [.create .refFaiTmp, .commit .refFaiTmp .good, .remove .refFaiTmp,
+          .commit .refFaiData .good]) (.commit .refFai .good)) := by
+        show J cfg (FS.set _ .refFai (some .good))
+        apply J_set (AllP_last h4) (by simp)
+        · intro hv; exact absurd rfl hv
+        · intro _ d hd
+          simp only [guarded] at hd
+          split at hd
+          · simp only [List.mem_cons, List.not_mem_nil, or_false] at hd; subst hd
+            simp [applyAll, apply, Ev.path, Ev.val, good_set]
+          · simp at hd
+      refine ⟨?_, by simp [evs, eventsOf], ?_, fun p hp => ?_, ?_, fun _ => ?_⟩
+      · simp [evs, ChecksOK, apply, Ev.path, Ev.val, has_set]
+      · have : ([.create .refFaiTmp, .commit .refFaiTmp .good, .remove .refFaiTmp, .commit .refFaiData .good, .commit .refFai .good] : List Ev)
+            = [.create .refFaiTmp, .commit .refFaiTmp .good, .remove .refFaiTmp, .commit .refFaiData .good] ++ [.commit .refFai .good] := rfl
+        rw [this, AllP_append]
+        exact ⟨h4, AllP_single (AllP_last h4) h5⟩
+      · cases p <;> simp [isRefAux] at hp <;> simp [applyAll, apply, Ev.path, FS.set]
+      · simp [applyAll, apply, Ev.path, FS.set]
+      · simp [applyAll, apply, Ev.path, Ev.val, good_set]
+
+/-- the reference stage writes only its own files (every variant) -/
+theorem refStage_paths (v : Variant) (cfg : Cfg) (rs : Bool) (fs : FS) :
+    ∀ e ∈ eventsOf (refStage v cfg rs fs), isRefAux e.path = true := by
+  intro e he
+  unfold refStage refCopyActs refIndexActs at he
+  rw [eventsOf_append] at he
+  simp only [List.mem_append] at he
+  rcases he with he | he
+  · split at he
+    · simp [eventsOf] at he
+    · split at he <;> simp [evs, eventsOf] at he
+      rcases he with rfl | rfl | rfl <;> rfl
+  · split at he
+    · simp [eventsOf] at he
+    · split at he
+      · simp [eventsOf] at he
+      · split at he <;> simp [evs, eventsOf] at he
+        · rcases he with rfl | rfl | rfl | rfl | rfl <;> rfl
+        · rcases he with rfl | rfl <;> rfl
+
+/-- the reference stage (repaired code): whatever file carries the name of the unpacked copy — nothing, the complete copy
+    of this run, a partial copy left by a kill, the copy of another reference left by an earlier run — is rewritten
+    before it is read; an index inside the folder is read only if it exists (then it is complete: `J`), otherwise it is
+    built under a temporary name and renamed; the stage completes, keeps the invariant at every prefix, touches no other
+    file and leaves the reference the run reads in order (`refOK`) -/
+theorem ref_stage {cfg : Cfg} (rs : Bool) {fs : FS} (h : J cfg fs) :
+    Good cfg fs (runActs (refStage fixed cfg rs fs) fs) ∧
+      (runActs (refStage fixed cfg rs fs) fs).evs = refEvents cfg fs ∧
+      (∀ p, isRefAux p = false → (runActs (refStage fixed cfg rs fs) fs).fs p = fs p) ∧
+      refOK cfg (runActs (refStage fixed cfg rs fs) fs).fs = true := by
+  obtain ⟨c1, e1, a1, f1, g1⟩ := copy_part (cfg := cfg) rs h
+  have hsame : fs.has .refFai = (applyAll fs (copyEvents cfg)).has .refFai := by
+    simp only [FS.has]; rw [f1 _ (by simp)]
+  have hidx : refIndexActs fixed cfg fs = refIndexActs fixed cfg (applyAll fs (copyEvents cfg)) := by
+    simp only [refIndexActs, hsame]
+  have hie : indexEvents cfg fs = indexEvents cfg (applyAll fs (copyEvents cfg)) := by
+    simp only [indexEvents, hsame]
+  obtain ⟨c2, e2, a2, f2, r2, g2⟩ := index_part (cfg := cfg) (AllP_last a1)
+  have hck : ChecksOK (refStage fixed cfg rs fs) fs := by
+    unfold refStage; rw [checks_append, e1, hidx]; exact ⟨c1, c2⟩
+  have hev : eventsOf (refStage fixed cfg rs fs) = refEvents cfg fs := by
+    unfold refStage refEvents; rw [eventsOf_append, e1, hidx, e2, hie]
+  obtain ⟨g, hfs⟩ := good_of_checks hck (by rw [hev]; unfold refEvents; rw [AllP_append, hie]; exact ⟨a1, a2⟩)
+  rw [hev] at hfs
+  refine ⟨g, by rw [(runActs_of_checks hck).2, hev], fun p hp => ?_, ?_⟩
+  · rw [hfs]; unfold refEvents; rw [applyAll_append, hie, f2 p hp, f1 p (by intro e; subst e; simp [isRefAux] at hp)]
+  · rw [hfs]; unfold refEvents; rw [applyAll_append, hie]
+    simp only [refOK, Bool.and_eq_true, Bool.or_eq_true, Bool.not_eq_true']
+    constructor
+    · cases hg : cfg.gzRef with
+      | false => exact Or.inl rfl
+      | true => right; simp only [FS.good]; rw [r2]; exact g1 hg
+    · cases hi : cfg.idx with
+      | false => exact Or.inl rfl
+      | true => exact Or.inr (g2 hi)
 
 /-- from a state satisfying the invariant, everything after `.params` completes, keeps the invariant at every
     prefix and leaves every final file complete and correct -/
@@ -225,7 +347,7 @@ theorem rest_run {cfg : Cfg} (wf : WF cfg) (ord : List Path) (hord : ord.Nodup) 
       (runActs (rgStage cfg rs fs) fs).fs.has (.processed c) = false := by
     intro e e' c hc; rw [FS.has, f1 _ rfl]; exact hnp0 e e' c hc
   have href1 : refOK cfg (runActs (rgStage cfg rs fs) fs).fs = true := by
-    simp only [refOK, FS.good] at href ⊢; rw [f1 _ rfl]; exact href
+    rw [refOK_frame (f1 _ rfl) (f1 _ rfl)]; exact href
   clear g1 f1 hsk hnsk h hsv hnp0 href
   generalize (runActs (rgStage cfg rs fs) fs).fs = fs1 at *
   -- stale locks
@@ -256,7 +378,7 @@ theorem rest_run {cfg : Cfg} (wf : WF cfg) (ord : List Path) (hord : ord.Nodup) 
   have hsv2 : cfg.fromSaves = true → SavesOK cfg (runActs (collectPre cfg rs skc fs1) fs1).fs := by
     intro e; rw [e2 (by subst hskc; simp [e])]; exact hsv1 e
   have href2 : refOK cfg (runActs (collectPre cfg rs skc fs1) fs1).fs = true := by
-    simp only [refOK, FS.good] at href1 ⊢; rw [f2 _ rfl]; exact href1
+    rw [refOK_frame (f2 _ rfl) (f2 _ rfl)]; exact href1
   clear g2 f2 r2 e2 n2 rg1 hsk1 hnsk1 j1 hsv1 hnp1 href1
   generalize (runActs (collectPre cfg rs skc fs1) fs1).fs = fs2 at *
   -- collection per chromosome
@@ -282,7 +404,7 @@ theorem rest_run {cfg : Cfg} (wf : WF cfg) (ord : List Path) (hord : ord.Nodup) 
       | cons c cs ih => simp only [List.map_cons, runStages, collectChr, if_true, runActs]; exact ih
     rw [hsame]; exact hsv2 e
   have href3 : refOK cfg (runStages (cfg.chrs.map (collectChr fixed cfg rs skc)) fs2).fs = true := by
-    simp only [refOK, FS.good] at href2 ⊢; rw [f3 _ (fun _ _ => rfl)]; exact href2
+    rw [refOK_frame (f3 _ (fun _ _ => rfl)) (f3 _ (fun _ _ => rfl))]; exact href2
   clear g3 f3 rg2 hsk2 hnl2 hnc2 hnp2 j2 hsv2 href2
   generalize (runStages (cfg.chrs.map (collectChr fixed cfg rs skc)) fs2).fs = fs3 at *
   -- multimappers, info, stage lock
@@ -299,7 +421,7 @@ theorem rest_run {cfg : Cfg} (wf : WF cfg) (ord : List Path) (hord : ord.Nodup) 
     · have hq' : skc = false := by simpa using hq
       exact savesOK_of_lock j4 (l4 hq')
   have href4 : refOK cfg (runActs (collectPost cfg skc fs3) fs3).fs = true := by
-    simp only [refOK, FS.good] at href3 ⊢; rw [f4 _ rfl]; exact href3
+    rw [refOK_frame (f4 _ rfl) (f4 _ rfl)]; exact href3
   clear g4 f4 hsk3 hnl3 hnp3 p3 j3 l4 e4 hsv3 href3
   generalize (runActs (collectPost cfg skc fs3) fs3).fs = fs4 at *
   -- final files opened
@@ -311,7 +433,7 @@ theorem rest_run {cfg : Cfg} (wf : WF cfg) (ord : List Path) (hord : ord.Nodup) 
   have hnp5 : rs = false → ∀ c ∈ cfg.chrs, (runActs (constructPre cfg fs4) fs4).fs.has (.processed c) = false := by
     intro e c hc; rw [FS.has, f5 _ rfl]; exact hnp4 e c hc
   have href5 : refOK cfg (runActs (constructPre cfg fs4) fs4).fs = true := by
-    simp only [refOK, FS.good] at href4 ⊢; rw [f5 _ rfl]; exact href4
+    rw [refOK_frame (f5 _ rfl) (f5 _ rfl)]; exact href4
   clear g5 f5 sv4 hnp4 j4 href4
   generalize (runActs (constructPre cfg fs4) fs4).fs = fs5 at *
   -- model construction per chromosome
@@ -357,7 +479,7 @@ theorem rest_run {cfg : Cfg} (wf : WF cfg) (ord : List Path) (hord : ord.Nodup) 
       exact fin8 p hp
     clear g9 f9 fin8 j8
     generalize (runActs (cleanupLocks fixed cfg fs8) fs8).fs = fs9 at *
-    obtain ⟨g10, nl10, f10⟩ := glob_stage j9 nl9 isSaveAux rfl ord hord
+    obtain ⟨g10, nl10, f10⟩ := glob_stage j9 nl9 isSaveAux rfl rfl ord hord
     have j10 := good_J_acts g10
     refine seq_cons (Q := FinOK cfg) g10 ?_
     have fin10 : ∀ p ∈ finalPaths cfg, (runActs (globStage isSaveAux ord fs9) fs9).fs.good p = true := by
@@ -367,7 +489,7 @@ theorem rest_run {cfg : Cfg} (wf : WF cfg) (ord : List Path) (hord : ord.Nodup) 
       exact fin9 p hp
     clear g10 f10 fin9 j9 nl9
     generalize (runActs (globStage isSaveAux ord fs9) fs9).fs = fs10 at *
-    obtain ⟨g11, nl11, f11⟩ := glob_stage j10 nl10 isRgAux rfl ord hord
+    obtain ⟨g11, nl11, f11⟩ := glob_stage j10 nl10 isRgAux rfl rfl ord hord
     have j11 := good_J_acts g11
     refine seq_cons (Q := FinOK cfg) g11 ?_
     refine ⟨⟨rfl, j11⟩, ?_⟩
@@ -388,13 +510,10 @@ theorem rest_run_ref {cfg : Cfg} (wf : WF cfg) (ord : List Path) (hord : ord.Nod
   obtain ⟨g0, _, f0, r0⟩ := ref_stage rs h
   refine seq_cons (Q := FinOK cfg) g0 ?_
   apply rest_run wf ord hord rs sk (good_J_acts g0) hskrs
-  · intro e; rw [FS.has, f0 _ (by simp)]; exact hsk e
-  · intro e e' e''; rw [FS.has, f0 _ (by simp)]; exact hnsk e e' e''
-  · intro e; exact savesOK_frame (hsv e) (f0 _ (by simp)) (fun _ => f0 _ (by simp)) (fun _ => f0 _ (by simp))
-  · intro e e' c hc; rw [FS.has, f0 _ (by simp)]; exact hnp0 e e' c hc
-  · simp only [refOK, Bool.or_eq_true, Bool.not_eq_true']
-    cases hg : cfg.gzRef with
-    | false => exact Or.inl rfl
-    | true => exact Or.inr (r0 hg)
+  · intro e; rw [FS.has, f0 _ rfl]; exact hsk e
+  · intro e e' e''; rw [FS.has, f0 _ rfl]; exact hnsk e e' e''
+  · intro e; exact savesOK_frame (hsv e) (f0 _ rfl) (fun _ => f0 _ rfl) (fun _ => f0 _ rfl)
+  · intro e e' c hc; rw [FS.has, f0 _ rfl]; exact hnp0 e e' c hc
+  · exact r0
 
 end IsoVerif.Lemmas.Resume
